@@ -19,13 +19,34 @@ def classify(ctx, rej, scns, events, kinds_wanted, prop):
 
 def run(ctx):
     def subset(scns):
-        return scns
+        # fingerprinted copies: the same offers from a custom spec obtained by fingerprinting the parrot's own hello
+        # (quick: one suite per (parrot, version, group); thorough: every scenario without ALPN)
+        seen, copies = set(), []
+        for x in scns:
+            if x["alpn"] or x["cert"] not in ("ecdsa", "rsa"):
+                continue
+            key = (x["id"], x["ver"], x["group"]) if ctx.quick else (x["id"], x["ver"], x["group"], x["suite"], x["cert"])
+            if key in seen:
+                continue
+            seen.add(key)
+            copies.append(dict(x, fp_copy=True))
+        # the same choices when another fingerprint used the very same *Config object before (state left in a shared
+        # Config by an earlier connection must not make the client refuse what its own hello offers)
+        seen2, shared = set(), []
+        for x in scns:
+            if x["alpn"] or (x["id"], x["ver"]) in seen2:
+                continue
+            seen2.add((x["id"], x["ver"]))
+            for prior in ("Chrome-133", "Firefox-55"):
+                if prior != x["id"]:
+                    shared.append(dict(x, prior_id=prior))
+        return scns + copies + shared
     scns, events, rej, unadv, mc = nc.run_nego(ctx, "c10", subset=subset, shards=12)
     for r, s, d in classify(ctx, rej, scns, events, ("progress",), "C10"):
         err = (r["result"] or {}).get("cerr", "")
         grp = ("shared-group-%d" % s["group"] if "invalid server key share" in err
                else "hrr-to-hybrid-group-%d" % s["group"] if "CurvePreferences includes unsupported curve" in err else "other")
-        ctx.finding("progress:%s:%s:%s:v%d" % (d, grp, re.sub(r"@\d+", "@seed", s["id"]), s["ver"]),
+        ctx.finding("progress:%s:%s:%s:v%d" % (d, grp, re.sub(r"@\d+", "@seed", s["id"]), s["ver"]) + (":fpcopy" if s.get("fp_copy") else "") + (":after-" + s["prior_id"] if s.get("prior_id") else ""),
                     "compliant server choice offered by %s is not completed: %s (client error: %s)" % (s["id"], d, err),
                     {"scenario": nc.scn_brief(s), "result": r["result"]})
     res = [e for e in events if e["ev"] == "Result"]
